@@ -5,8 +5,7 @@ from props import util
 
 THEOREMS = ['C04_value_accounting', 'C04_asset_total', 'C04_wf_check_sound']
 CFG = {'p_coarse': 0.25, 'p_periodic': 0.25, 'T': (3, 8), 'n_assets': (1, 4), 'nodes': (1, 3), 'p_wacc': 0.5,
-       'kinds': {'SimpleContract': 2, 'Contract': 2, 'Transport': 2, 'Storage': 2,
-                 'MultiCommodityContract': 1, 'OrderBook': 3, 'ExtendedTransport': 1}}
+       'kinds': {'SimpleContract': 2, 'Contract': 2, 'Transport': 2, 'Storage': 2, 'MultiCommodityContract': 1, 'OrderBook': 3, 'ExtendedTransport': 1, 'ScaledAsset': 3, 'StructuredAsset': 2}}
 
 
 def dcf_table(o, dcf):
@@ -54,6 +53,7 @@ def run(ctx):
     n = 60 if ctx.tier == 'quick' else 400
     specs = util.corpus(ctx.prop) + gen.gen_many(ctx.seed, n, CFG, 'c04_')
     util.add_split(specs)
+    specs += util.orderbook_tail_specs(ctx.seed, 10 if ctx.tier == 'quick' else 60, 'c04ob_')
     res = C.run_impl('portfolio', specs)
     exprs, owners = [], []
     for sp, o in zip(specs, res):
